@@ -146,6 +146,20 @@ fn vk_check_to_bytes(x: TypedReprRef<'_>, mag: [u64; 4], neg: bool, which: u8, m
     assert!(len <= max_len + (which >= 2) as usize);
     let img = vk_bytes_image(&a, len, which == 1 || which == 3, which >= 2);
     assert!(vk_img_eq(img, vk_sign_mag_image(neg, mag)));
+    // C19 "identical across word sizes": the form is canonical = minimal; the most significant byte is never a
+    // redundant zero (unsigned) resp. a redundant sign extension (signed)
+    if len >= 1 {
+        let big_endian = which == 1 || which == 3;
+        let top = if big_endian { a[0] } else { a[len - 1] };
+        if which < 2 {
+            assert!(top != 0);
+        } else if len >= 2 {
+            let next = if big_endian { a[1] } else { a[len - 2] };
+            assert!(!((top == 0 && next < 0x80) || (top == 0xff && next >= 0x80)));
+        } else {
+            assert!(top != 0);
+        }
+    }
 }
 
 macro_rules! vk_bytes_to {
